@@ -32,6 +32,15 @@ def attrs_of(n, base) -> set[str]:
     return {x[2] for x in walk(n) if isinstance(x, tuple) and x and x[0] == "attr" and x[1] == base}
 
 
+def tuple_elems(b, n):
+    """elements of a returned tuple, whether it is written as a display or as an instance of a NamedTuple class (which is the tuple of
+    its fields in declared order); None for anything else"""
+    if isinstance(n, tuple) and n and n[0] == "tuple" and not any(isinstance(x, tuple) and x and x[0] == "star" for x in n[1]):
+        return list(n[1])
+    nt = b.namedtuple_fields(n)
+    return None if nt is None else list(nt)
+
+
 def one(paths, what):
     """The single non-raising static path of a function. When a later change introduced a static case split, the paths are
     merged back into one value (nested `ite` over the path conditions) so that the rule still compares what the function
@@ -241,8 +250,10 @@ def elementwise(c, dicts=(), level=None):
 
 
 def element_at_pos(c, dicts=()):
-    """elementwise() with nested list comprehensions resolved: `[f(x) for x in xs][@pos]` is f(xs[@pos]) (single unfiltered generator),
-    so a list that is built first and zipped afterwards reads like the fused comprehension. Returns (element, domains) or None."""
+    """elementwise() with nested list / generator comprehensions resolved: `[f(x) for x in xs][@pos]` is f(xs[@pos]) (single unfiltered
+    generator), so a sequence that is built first and zipped afterwards reads like the fused comprehension. A nested comprehension over
+    a dict D contributes D's own key symbol: zipping it with D.values() pairs equal positions of one dict, i.e. equal keys, while a
+    comprehension over another dict keeps that dict's key symbol. Returns (element, domains) or None."""
     ew = elementwise(c, dicts)
     if ew is None:
         return None
@@ -250,7 +261,7 @@ def element_at_pos(c, dicts=()):
     domains = list(domains)
 
     def f(n):
-        if n and n[0] == "sub" and n[2] == POS and isinstance(n[1], tuple) and n[1] and n[1][0] == "comp" and n[1][1] == "ListComp":
+        if n and n[0] == "sub" and n[2] == POS and isinstance(n[1], tuple) and n[1] and n[1][0] == "comp" and n[1][1] in ("ListComp", "GeneratorExp"):
             inner = element_at_pos(n[1], dicts)
             if inner is not None:
                 domains.extend(inner[1])
